@@ -147,7 +147,7 @@ Fixpoint image_data_from (cur : Z) (secs : list msection) : result (list Z) :=
   match secs with
   | [] => Ok []
   | sec :: r =>
-      if ms_addr sec <? cur then Internal ValueErrorI else
+      if ms_addr sec <? cur then Diag 2 (* ValueError("sections overlap!!") *) else
       rest <- image_data_from (ms_addr sec + len (ms_data sec)) r ;;
       Ok (zeros (ms_addr sec - cur) ++ ms_data sec ++ rest)
   end.
